@@ -22,6 +22,7 @@ from .lie_common import lib_call
 
 SHARDS = {"quick": 16, "thorough": 16}
 TIMEOUT = {"quick": 1500, "thorough": 8 * 3600}
+REQUIRED_REACH = ['generate_code', 'derive_control_allocation', 'derive_ref', 'derive_mr_ref_traj']
 RULE = ("programs = every C function emitted by every shipped generation entry point (python -m cyecca.models.{rdd2,rdd2_loglinear,"
         "bezier}, the three model generate_code functions, cyecca.codegen.generate_code and algorithms.generate_code on the estimator/"
         "simulator/reference-trajectory sets) plus generator-option variants; inputs per function = random (scales 1e-3..1e2, mixed "
